@@ -381,6 +381,12 @@ MUTANTS += [
     ("c03-normal-cube", ["C03"], [(DNF, "            torchutils.sum_except_batch(inputs ** 2, num_batch_dims=1)", "            torchutils.sum_except_batch(inputs ** 2 * inputs, num_batch_dims=1)")], "BASE-TERMS"),
 ]
 
+MUTANTS += [
+    ("c06-inverse-one-pass-short", ["C06"], [(AR, "        for _ in range(num_inputs):\n            autoregressive_params = self.autoregressive_net(outputs, context)\n            outputs, logabsdet = self._elementwise_inverse(\n                inputs, autoregressive_params\n            )", "        for _ in range(num_inputs - 2):\n            autoregressive_params = self.autoregressive_net(outputs, context)\n            outputs, _ = self._elementwise_inverse(inputs, autoregressive_params)\n        autoregressive_params = self.autoregressive_net(outputs, context)\n        outputs, logabsdet = self._elementwise_inverse(inputs, autoregressive_params)")], "INV-AR"),
+    ("c06-inverse-logdet-of-first-pass", ["C06"], [(AR, "        for _ in range(num_inputs):\n            autoregressive_params = self.autoregressive_net(outputs, context)\n            outputs, logabsdet = self._elementwise_inverse(\n                inputs, autoregressive_params\n            )", "        autoregressive_params = self.autoregressive_net(outputs, context)\n        outputs, logabsdet = self._elementwise_inverse(inputs, autoregressive_params)\n        for _ in range(num_inputs - 1):\n            autoregressive_params = self.autoregressive_net(outputs, context)\n            outputs, _ = self._elementwise_inverse(inputs, autoregressive_params)")], "INV-AR"),
+    ("c01-pointwise-logscale-frozen", ["C01", "C02", "C03"], [("nflows/transforms/standard.py", "    @property\n    def _log_abs_scale(self) -> Tensor:\n        return torch.log(torch.abs(self._scale))\n", "        self.register_buffer(\"_log_abs_scale\", torch.log(torch.abs(scale)), persistent=False)\n")], "LD-STATE"),
+]
+
 # ---- C11 LIN-WORD / LIN-LOGDET on the matrix-word algebra ----
 MUTANTS += [
     ("c11w-lu-weight-order", ["C11"], [(LU, "        return lower @ upper", "        return upper @ lower")], "LIN-WORD"),
@@ -428,6 +434,7 @@ MUTANTS += [
 ]
 
 BENIGN = [
+    ("b-c06-inverse-last-pass-outside", ["C06", "C01", "C02", "C16", "C13"], [(AR, "        for _ in range(num_inputs):\n            autoregressive_params = self.autoregressive_net(outputs, context)\n            outputs, logabsdet = self._elementwise_inverse(\n                inputs, autoregressive_params\n            )", "        for _ in range(num_inputs - 1):\n            autoregressive_params = self.autoregressive_net(outputs, context)\n            outputs, _ = self._elementwise_inverse(inputs, autoregressive_params)\n        autoregressive_params = self.autoregressive_net(outputs, context)\n        outputs, logabsdet = self._elementwise_inverse(inputs, autoregressive_params)")]),
     ("b-c03-normal-pow-half", ["C03", "C05"], [("nflows/distributions/normal.py", "        neg_energy = -0.5 * \\\n            torchutils.sum_except_batch(inputs ** 2, num_batch_dims=1)", "        neg_energy = -torchutils.sum_except_batch(inputs.pow(2), num_batch_dims=1) / 2")]),
     ("b-c03-normal-x-times-x", ["C03", "C05"], [("nflows/distributions/normal.py", "            torchutils.sum_except_batch(inputs ** 2, num_batch_dims=1)", "            torchutils.sum_except_batch(inputs * inputs, num_batch_dims=1)")]),
     ("b-c03-normal-divide-std", ["C03", "C05"], [("nflows/distributions/normal.py", "        norm_inputs = (inputs - means) * torch.exp(-log_stds)", "        norm_inputs = (inputs - means) / torch.exp(log_stds)")]),
